@@ -628,6 +628,12 @@ _PAD_ID = -7.0
 def _move(func, args, kwargs):
     table = [Sym.const(0.0)]
     def enc(x):
+        if isinstance(x, torch.Tensor) and not x.is_floating_point() and SH.has(x):
+            if _all_concrete(SH.get(x)):
+                return x  # an index / mask tensor whose shadow holds only concrete values
+            if func in (aten.index.Tensor, aten._unsafe_index.Tensor, aten.masked_select.default, aten.index_select.default,
+                        aten.gather.default, aten.take.default):
+                raise Unsupported("symbolic mask / index tensor in %s at %s" % (func, where_am_i()))
         if isinstance(x, torch.Tensor) and (x.is_floating_point() or SH.has(x)):
             A = SH.get(x)
             base = len(table)
@@ -657,6 +663,10 @@ def _move(func, args, kwargs):
         for o, i in zip(out, idout):
             SH.put(o, dec(i))
     return out
+
+
+def _all_concrete(A):
+    return all(isinstance(v, (bool, int, np.bool_, np.integer)) for v in np.asarray(A, dtype=object).reshape(-1))
 
 
 MOVE = [aten.cat.default, aten.stack.default, aten.clone.default, aten.diag_embed.default, aten.tril.default,
@@ -746,7 +756,7 @@ def h_index_put(func, args, kwargs):
     self_, indices, values = args[0], args[1], args[2]
     accumulate = args[3] if len(args) > 3 else kwargs.get("accumulate", False)
     for i in indices:
-        if i is not None and SH.has(i):
+        if i is not None and SH.has(i) and not _all_concrete(SH.get(i)):
             raise Unsupported("index_put with a symbolic mask/index")
     A = SH.get(self_).copy()
     V = SH.get(values) if isinstance(values, torch.Tensor) else arr0(as_sym(values))
@@ -798,7 +808,7 @@ def h_scatter(func, args, kwargs):
 @reg(aten.masked_scatter.default, aten.masked_scatter_.default)
 def h_masked_scatter(func, args, kwargs):
     self_, mask, src = args
-    if SH.has(mask):
+    if SH.has(mask) and not _all_concrete(SH.get(mask)):
         raise Unsupported("masked_scatter with a symbolic mask")
     A = SH.get(self_).copy()
     S = SH.get(src).reshape(-1)
